@@ -192,3 +192,14 @@ def atoms(path):
                 v = not v
             out.append((t, v, e))
     return out
+
+
+def exc_info_item(a, idx=None):
+    """is `a` element idx of sys.exc_info() (by subscript or by tuple unpacking)?"""
+    if not (isinstance(a, tuple) and a and a[0] in ("sub", "unpack")):
+        return False
+    c = a[1]
+    if not (isinstance(c, tuple) and c and c[0] == "call" and term_name(c[1]) == "exc_info"):
+        return False
+    i = a[2][1] if a[0] == "sub" and isinstance(a[2], tuple) and a[2][0] == "const" else a[2] if a[0] == "unpack" else None
+    return idx is None or i == idx
